@@ -104,6 +104,9 @@ def events(tr):
 class C11(Prop):
     id = 'C11'
     num = 11
+    # K2: the slice of the (stage-2) engine model's state / records this property reads
+    k2_mask = {('ind', '*'), ('rec', '*'), ('server', '*'), ('node', 'interrupted'), ('node', 'nint'), ('node', 'insvc'), ('node', 'queues')}
+    k2_frames = 40
     regions = {'quick': [('preempt', 240), ('preempt_deep', 120), ('renege_preempt', 80), ('prio_reroute', 60), ('jsq_preempt', 40), ('schedpre', 100), ('slotted', 30), ('slotted_pre', 40),
                          ('dyn', 40), ('all', 60)]}
     rule = ('one case = one observed run of a network with pre-emptive priorities and/or pre-emptive schedules (customers of those nodes never '
